@@ -11,9 +11,9 @@
      reachable p g x s k ls   ls is the loop state of a fresh run of g on x after k continuing supersteps
      pregel_inv ls         channels all empty, nothing running, frontier without duplicates and without END *)
 From Coq Require Import Permutation.
-From Eino Require Import Base.Util Model.Graph Model.Chain Model.ChainSpec Model.ChainCompile Model.PregelOpts Proofs.Graph
+From Eino Require Import Base.Util Model.Graph Model.Chain Model.ChainSpec Model.ChainCompile Model.PregelOpts Model.PregelHyps Proofs.Graph
   Proofs.PregelBase Proofs.Pregel Proofs.PregelRun Proofs.PregelNest Proofs.PregelTop
-  Proofs.PregelChainLower Proofs.PregelChain Proofs.PregelOrder Proofs.PregelChainCompile Proofs.PregelOpts.
+  Proofs.PregelChainLower Proofs.PregelChain Proofs.PregelOrder Proofs.PregelChainCompile Proofs.PregelOpts Proofs.PregelHyps.
 Open Scope N_scope.
 
 (* ---------- default step limit = number of nodes + 10 (graph.compile) ---------- *)
@@ -396,6 +396,15 @@ Theorem corr_chain_ties_agree :
 Proof. exact chain_case_run_is_eval. Qed.
 Print Assumptions corr_chain_ties_agree.
 
+(* the hypotheses of the theorems above in decidable form ([hyps_ok], Model/PregelHyps.v), which Corr/C01.v
+   evaluates on the lowered forest of every compared case: they imply the propositional ones *)
+Theorem corr_hypotheses_hold :
+  forall F, hyps_ok F = true ->
+    well_nested F /\
+    forall g, In g F -> is_pregel_mode g = true -> pregel_graph g /\ unique_keys g /\ data_branches g.
+Proof. exact hyps_ok_sound. Qed.
+Print Assumptions corr_hypotheses_hold.
+
 (* ================= non-vacuity ================= *)
 (* a cyclic graph: START -> 2 -> 3, 3 branches back to 2 or to END depending on the size of its output *)
 Definition ex_node (k : key) (ds : list key) (bs : list branch) : node :=
@@ -410,6 +419,9 @@ Proof.
   split; [split; reflexivity|]. intros n b Hn Hb. simpl in Hn.
   destruct Hn as [<-|[<-|[<-|[]]]]; simpl in Hb; try contradiction. destruct Hb as [<-|[]]. reflexivity.
 Qed.
+
+Example ex_hyps_ok : hyps_ok [ex_cycle 0] = true.
+Proof. vm_compute. reflexivity. Qed.
 
 (* the loop is taken twice, then END: 6 supersteps *)
 Example ex_cycle_done :
